@@ -86,6 +86,7 @@ type vecHistOpts struct {
 	serialize  bool // insert WriteTo / reload-into-fresh-index ops (C07)
 	nops       int
 	allowReuse bool // re-add ids after removal (C06)
+	allowDup   bool // add an id that is still live (outside the documented contract "ID: unique identifier"; the index stores a second entry)
 	trainFirst bool
 	ntrain     int
 	gauss      bool
@@ -219,6 +220,16 @@ func runVecHistory(r *rand.Rand, p vecParams, o vecHistOpts, t *Trace) *Case {
 				id = uint32(ids[r.Intn(len(ids))])
 				nextID--
 				t.Stat("vec.add_reuse_removed_id")
+			}
+			if o.allowDup && len(resident) > 0 && r.Intn(8) == 0 {
+				cand := resident[r.Intn(len(resident))].id
+				if !removed[cand] {
+					if id == nextID-1 {
+						nextID--
+					}
+					id = cand
+					t.Stat("vec.add_id_that_is_live")
+				}
 			}
 			dim := p.dim
 			// a failing add (wrong dimension) is made more likely when a removed id is re-used: a failed
